@@ -250,6 +250,8 @@ def oracle(case, out):
             return ("sigalg-changed", "a caller-supplied alg (%s) was replaced (%s)" % (supplied, merged))
         if merged is None:
             return ("sigalg-unrecorded", "a signature was prepared without any alg in the merged header")
+        if supplied is None and not (isinstance(p, dict) and isinstance(p.get("alg"), str)):
+            return ("sigalg-inferred-not-protected", "the signing algorithm was inferred (the template names none) but it is not recorded in the PROTECTED header: protected %s, header %s" % (parts["P"][:80], parts["H"][:80]))
     if f[0] == "encalg" and out != "ERR" and "\tIV=" in out:
         parts = dict(x.split("=", 1) for x in out.split("\t"))
         if parts.get("RT") == "FAIL":
